@@ -208,6 +208,9 @@ int main(int argc,char **argv){
       else if(!strncmp(tok,"TP",2))rc=ov_time_seek_page_lap(&vf,atof(tok+2));
       else if(!strcmp(tok,"h1"))rc=ov_halfrate(&vf,1);
       else if(!strcmp(tok,"h0"))rc=ov_halfrate(&vf,0);
+      else if(!strcmp(tok,"h2"))rc=ov_halfrate(&vf,2);        /* "nonzero turns it on" */
+      else if(!strcmp(tok,"hm"))rc=ov_halfrate(&vf,-1);
+      else if(!strcmp(tok,"hb"))rc=ov_halfrate(&vf,256);
       else if(!strcmp(tok,"q")){ m.quiet=1; rc=0; }
       else if(!strcmp(tok,"bi"))rc=ov_bitrate_instant(&vf);
       else if(tok[0]=='x'){ h128 hh; h_init(&hh); misc_calls(&vf,atoi(tok+1),&hh); rc=(long)(hh.a&0x7fff); }
